@@ -356,7 +356,9 @@ pub fn t_sur() -> TreeSpec {
         roots: sv(&["\"", "{\"", "[\""]),
         alphabet: sv(&["\\uD800", "\\uDBFF", "\\uDC00", "\\uDFFF", "\\u0041", "\\n", "a", "\u{e9}", "\""]),
         wide: Vec::new(),
-        post: post_default(),
+        // after a surrogate fault the whole alphabet continues for the post-mortem horizon: a
+        // parser that misses the fault may still pair the pending surrogate with a later escape
+        post: sv(&["\\uD800", "\\uDBFF", "\\uDC00", "\\uDFFF", "\\u0041", "\\n", "a", "\u{e9}", "\"", "]"]),
     }
 }
 
